@@ -119,22 +119,31 @@ static const char *lpc_str (object_t *reader, const char *fn, object_t *arg, cha
 
 static int count_objects (void) { int n = 0; for (object_t *o = obj_list; o; o = o->next_all) n++; return n; }
 
-static void check_world (const char *when) {
+static int touched[2] = { -1, -1 }, first_new;
+static int keep_going, nkinds = 3;
+
+static void check_world (const char *when, int all) {
+  int nouid = 0;
   for (int i = 0; i < nW; i++) {
     wobj *w = &W[i];
     const char *u = w->ob->uid ? w->ob->uid->name : 0, *e = w->ob->euid ? w->ob->euid->name : 0;
     if (!u) {
       fail_hist ("C20:object-without-uid", "%s: /%s has uid 0 (getuid() on it dereferences a null pointer)", when, w->name);
+      nouid = 1;
       continue;
     }
     if (strcmp (u, w->uid)) fail_hist ("C20:uid-differs-from-model", "%s: uid of /%s is \"%s\", rules give \"%s\"", when, w->name, u, w->uid);
     if (strcmp (e ? e : "", w->euid)) fail_hist ("C20:euid-differs-from-model", "%s: euid of /%s is \"%s\", rules give \"%s\"", when, w->name, e ? e : "0", w->euid[0] ? w->euid : "0");
+    if (!all && i != touched[0] && i != touched[1] && i < first_new) continue;    /* efun-level reads: objects the op touched or made */
     char b[200];
     if (strcmp (lpc_str (READER, "uid_of", w->ob, b, sizeof b), w->uid)) fail_hist ("C20:getuid-efun-differs", "%s: getuid(/%s) = \"%s\", rules give \"%s\"", when, w->name, b, w->uid);
     if (strcmp (lpc_str (READER, "euid_of", w->ob, b, sizeof b), w->euid)) fail_hist ("C20:geteuid-efun-differs", "%s: geteuid(/%s) = \"%s\", rules give \"%s\"", when, w->name, b, w->euid[0] ? w->euid : "0");
   }
   int n = count_objects ();
   if (n != base_objs + nW) fail_hist ("C20:object-count-differs", "%s: %d objects exist, the rules allow %d", when, n, base_objs + nW);
+  /* an object without uid makes the next getuid()/valid_seteuid on it crash the driver: the history ends here
+     (--keep-going=1 shows the crash) */
+  if (nouid && !keep_going) vx_child_exit (0);
 }
 
 /* model of give_uid_to_object() for an object `name` created on behalf of loader L (never NULL here) */
@@ -250,13 +259,20 @@ static void op_export (int xa, int ya) {
 }
 
 /* ------------------------------------------------------------------ exploration */
+static int cmp_desc (const void *a, const void *b) { return strcmp ((const char *) a, (const char *) b); }
+/* actors A0..A3 are interchangeable (every op is offered for every actor, the oracle does not depend on the slot):
+   their descriptors are sorted, so that states equal up to a permutation of the slots merge */
 static int canon (char *b, int len, int step) {
+  char d[NACT][48];
   int n = snprintf (b, len, "s%d p%d%d|", step, pol_vs, pol_cf);
-  for (int i = 0; i <= NACT; i++) {
-    if (act[i] < 0) { n += snprintf (b + n, len - n, "-;"); continue; }
+  for (int i = 0; i < NACT; i++) {
+    if (act[i] < 0) { strcpy (d[i], "~"); continue; }
     wobj *w = &W[act[i]];
-    n += snprintf (b + n, len - n, "%d%d:%s:%s;", w->cre, w->clone, w->uid, w->euid);
+    snprintf (d[i], sizeof d[i], "%d%d:%s:%s", w->cre, w->clone, w->uid, w->euid);
   }
+  qsort (d, NACT, sizeof d[0], cmp_desc);
+  for (int i = 0; i < NACT; i++) n += snprintf (b + n, len - n, "%s;", d[i]);
+  n += snprintf (b + n, len - n, "M:%s:%s", W[act[MASTER]].uid, W[act[MASTER]].euid);
   for (int c = 0; c < NCRE; c++) n += snprintf (b + n, len - n, "|%d,%d", nloaded[c], bp_a[c] >= 0);
   return n;
 }
@@ -264,8 +280,9 @@ static int canon (char *b, int len, int step) {
 static void body (void) {
   char cb[400];
   int cfg = (int) vx_opt_long ("cfg", -1);
-  if (cfg < 0) cfg = vx_choose_free (12, "policy");
-  pol_vs = cfg % 3; pol_cf = cfg / 3;
+  if (cfg < 0) cfg = vx_choose_free ((int) vx_opt_long ("ncfg", 12), "policy");
+  /* order: creator_file by-directory, always-BB, returns 0, returns a non-string; each x valid_seteuid own / approve / refuse */
+  { static const int cf_order[4] = { 0, 3, 1, 2 }, vs_order[3] = { 2, 1, 0 }; pol_vs = vs_order[cfg % 3]; pol_cf = cf_order[cfg / 3]; }
   /* initial actors are loaded by the driver itself (no current object): uid = creator, euid 0 */
   set_policy_n ("log_uid", 1);
   if (pol_vs == 2) set_policy_s ("valid_seteuid", "own"); else set_policy_n ("valid_seteuid", pol_vs);
@@ -283,28 +300,41 @@ static void body (void) {
     act[i] = wi;
   }
   check_master_log ("initial loads");
-  check_world ("after initial loads");
+  first_new = 0; check_world ("after initial loads", 1);
   vx_obs ("policy: valid_seteuid=%s creator_file=%s", pol_vs == 0 ? "refuse" : pol_vs == 1 ? "approve" : "own-uid-only",
           pol_cf == 0 ? "by-directory" : pol_cf == 1 ? "returns 0" : pol_cf == 2 ? "returns an array" : "always BB");
 
   for (int step = 0; step < depth; step++) {
     vx_state (cb, (size_t) canon (cb, sizeof cb, step));
-    /* 0 stop | actor x (5) x [ create kind(3) x creator(4) | seteuid(4) | export_uid(y: 5) ] */
-    const int per = 3 * NCRE + 4 + (NACT + 1);
-    int op = vx_choose_free (1 + (NACT + 1) * per, "op");
+    /* enabled ops in this state: 0 stop | live actor x (<= 5) x [ create kind x creator | seteuid(4) | export_uid(live y != x) ] */
+    struct { int xa, k, a; } ops[160];
+    int nops = 0;
+    for (int xa = 0; xa <= NACT; xa++) {
+      if (act[xa] < 0) continue;
+      for (int kind = 0; kind < nkinds; kind++)
+        for (int c = 0; c < NCRE; c++) {
+          if (kind != K_CLONE && nloaded[c] >= (int) strlen (load_files)) continue;
+          ops[nops].xa = xa; ops[nops].k = kind; ops[nops++].a = c;
+        }
+      for (int v = 0; v < 4; v++) {
+        if (v == 3 && !strcmp (W[act[xa]].uid, "Root")) continue;       /* same as "own uid" */
+        ops[nops].xa = xa; ops[nops].k = 10; ops[nops++].a = v;
+      }
+      for (int ya = 0; ya <= NACT; ya++) {
+        if (ya == xa || act[ya] < 0) continue;
+        ops[nops].xa = xa; ops[nops].k = 11; ops[nops++].a = ya;
+      }
+    }
+    int op = vx_choose_free (1 + nops, "op");
     if (!op) break;
     op--;
-    int xa = op / per, k = op % per;
-    if (act[xa] < 0) vx_child_exit (0);
-    if (k < 3 * NCRE) op_create (xa, k / NCRE, k % NCRE);
-    else if (k < 3 * NCRE + 4) op_seteuid (xa, k - 3 * NCRE);
-    else {
-      int ya = k - 3 * NCRE - 4;
-      if (ya == xa || act[ya] < 0) vx_child_exit (0);
-      op_export (xa, ya);
-    }
-    check_world ("after op");
+    touched[0] = act[ops[op].xa]; touched[1] = -1; first_new = nW;
+    if (ops[op].k < 10) op_create (ops[op].xa, ops[op].k, ops[op].a);
+    else if (ops[op].k == 10) op_seteuid (ops[op].xa, ops[op].a);
+    else { touched[1] = act[ops[op].a]; op_export (ops[op].xa, ops[op].a); }
+    check_world ("after op", 0);
   }
+  check_world ("at the end", 1);
   vx_count (C_HIST, 1);
 }
 
@@ -316,6 +346,8 @@ int main (int argc, char **argv) {
   vx_init_args (argc, argv);
   depth = (int) vx_opt_long ("depth", 3);
   selftest = (int) vx_opt_long ("selftest", 0);
+  keep_going = (int) vx_opt_long ("keep-going", 0);
+  nkinds = (int) vx_opt_long ("kinds", 3);       /* 2 = load_object, clone_object; 3 = + call_other on a file name */
   hx_boot (mud, "", patch);
   vx_count_name (C_HIST, "histories_completed");
   vx_count_name (C_CREATED, "objects_created");
